@@ -300,6 +300,8 @@ def stage_ctor_kwargs(B, sp):
         h = sp.get(key)
         if h is not None and h[0] != "par":
             kw[key] = horizon_arg(B, h)
+    if sp.get("time_scale") is not None:
+        kw["scale"] = sp["time_scale"]      # the constructor's 'typical time scale' option: never changes the problem
     return kw
 
 
